@@ -16,8 +16,8 @@ Import ListNotations.
 Local Close Scope Q_scope.
 Local Open Scope string_scope.
 
-Definition writeC : utree -> string := write fmt_go.
-Definition parseC : string -> pres := parse numericC parse_numC.
+Definition writeC : utree -> string := write_go.
+Definition parseC : string -> pres := parse_go.
 Definition wfNC : utree -> bool := wfN numericC is_b64.
 (** the domain of the proved round-trip theorem of the executable model (Properties/C01.v);
     the tag "rt:wf-numgap" counts trees of the quantifier that are outside it *)
